@@ -101,6 +101,24 @@ MUTANTS = [
     ('tmpl_destroy_wrong_entity', 'macros/src/generate/query.rs', """                            EcsStepDestroy::ContinueDestroy => {
                                 let entity = slices.entity[idx];""", """                            EcsStepDestroy::ContinueDestroy => {
                                 let entity = slices.entity[0];""", ['C07']),
+    ('bind_component_negated', 'macros/src/generate/query.rs', 'if param.is_cfg_enabled == false || archetype.contains_component(name) {', 'if param.is_cfg_enabled == false || !archetype.contains_component(name) {', ['C05']),
+    ('bind_cfg_disabled_no_longer_binds', 'macros/src/generate/query.rs', 'if param.is_cfg_enabled == false || archetype.contains_component(name) {', 'if archetype.contains_component(name) {', ['C05']),
+    ('bind_one_of_ambiguity_unchecked', 'macros/src/generate/query.rs', """            if let Some(found) = found {
+                return Err(syn::Error::new(""", """            if let (Some(found), true) = (found.clone(), false) {
+                return Err(syn::Error::new(""", ['C05']),
+    ('bind_entity_name_compare_inverted', 'macros/src/generate/query.rs', """                ParseQueryParamType::Entity(name) => {
+                    if param.is_cfg_enabled == false || archetype.name == name.to_string() {""", """                ParseQueryParamType::Entity(name) => {
+                    if param.is_cfg_enabled == false || archetype.name != name.to_string() {""", ['C05']),
+    ('contains_component_first_only', 'macros/src/data.rs', """            if component.name == name.to_string() {
+                return true;
+            }
+        }
+        false""", """            if component.name == name.to_string() {
+                return true;
+            }
+            return false;
+        }
+        false""", ['C05']),
     ('panic_in_critical_section', ST, 'self.version = next_version;', 'self.version = self.version.next();', ['C10']),
 ]
 
